@@ -65,6 +65,7 @@ std::string ledger_describe(size_t max) {
 	if (dbg_bt() && led) for (auto &e : *led) { fprintf(stderr, "LEAKED block #%llu (%zu bytes) allocated at:\n", (unsigned long long) e.second.serial, e.second.size); backtrace_symbols_fd(e.second.bt, e.second.nbt, 2); }
 	return s;
 }
+bool registry_global = false;
 static inline bool should_fail() {
 	++g.alloc_count; ++g.total_allocs;
 	if ((g.fail_at && g.alloc_count == g.fail_at) || (g.fail_from && g.alloc_count >= g.fail_from)) {
@@ -149,6 +150,20 @@ char *__wrap_strdup(const char *s) {
 	}
 	return __real_strdup(s);
 }
+// type registry entry points: what they allocate lives until the process ends (by design); a world that is not about the registry
+// books those allocations to the process, so that first use of a type inside a run is not taken for a leak of that run
+struct RegistryScope { int saved; RegistryScope() : saved(g.in_sut) { if (registry_global) g.in_sut = 0; } ~RegistryScope() { g.in_sut = saved; } };
+const void *__real_mpt_type_traits(uintptr_t); const void *__real_mpt_interface_traits(uintptr_t); const void *__real_mpt_metatype_traits(uintptr_t);
+const void *__real_mpt_named_traits(const char *, int); int __real_mpt_type_add(const void *); int __real_mpt_type_basic_add(size_t);
+const void *__real_mpt_type_metatype_add(const char *); const void *__real_mpt_type_interface_add(const char *);
+const void *__wrap_mpt_type_traits(uintptr_t t) { RegistryScope s; return __real_mpt_type_traits(t); }
+const void *__wrap_mpt_interface_traits(uintptr_t t) { RegistryScope s; return __real_mpt_interface_traits(t); }
+const void *__wrap_mpt_metatype_traits(uintptr_t t) { RegistryScope s; return __real_mpt_metatype_traits(t); }
+const void *__wrap_mpt_named_traits(const char *n, int l) { RegistryScope s; return __real_mpt_named_traits(n, l); }
+int __wrap_mpt_type_add(const void *t) { RegistryScope s; return __real_mpt_type_add(t); }
+int __wrap_mpt_type_basic_add(size_t n) { RegistryScope s; return __real_mpt_type_basic_add(n); }
+const void *__wrap_mpt_type_metatype_add(const char *n) { RegistryScope s; return __real_mpt_type_metatype_add(n); }
+const void *__wrap_mpt_type_interface_add(const char *n) { RegistryScope s; return __real_mpt_type_interface_add(n); }
 void __wrap__mpt_abort(const char *msg, const char *fcn, const char *file, int line) {
 	if (g.jb_armed) { g.abort_msg = msg; longjmp(g.jb, 1); }
 	__real__mpt_abort(msg, fcn, file, line);
